@@ -393,6 +393,10 @@ struct FOut {
     from_samples_nohint: Option<Vec<Val>>,
     from_samples_lowhint: Option<Vec<Val>>,
     channels: Vec<Val>,
+    /// positional use of the channels() iterator: nth(k) then the rest, skip(k), step_by(2)
+    channels_nth: Vec<(usize, Option<Val>, Vec<Val>)>,
+    channels_skip: Vec<(usize, Vec<Val>)>,
+    channels_step2: Vec<Val>,
     channels_ref: Vec<Val>,
     channels_ref_rev: Vec<Val>,
     after_channels_mut: Vec<Val>,
@@ -481,6 +485,14 @@ where
             break;
         }
     }
+    for k in [0usize, 1, n / 2, n.saturating_sub(1), n, n + 2] {
+        let mut it = f.channels();
+        let got = it.nth(k).map(|s| s.to_val());
+        let rest: Vec<Val> = it.take(n + 4).map(|s| s.to_val()).collect();
+        out.channels_nth.push((k, got, rest));
+        out.channels_skip.push((k, f.channels().skip(k).take(n + 4).map(|s| s.to_val()).collect()));
+    }
+    out.channels_step2 = f.channels().step_by(2).take(n + 4).map(|s| s.to_val()).collect();
     out.channels_ref = f.channels_ref().map(|s| s.to_val()).collect();
     out.channels_ref_rev = f.channels_ref().rev().map(|s| s.to_val()).collect();
     // channels_mut: overwrite channel i with other[i]
@@ -655,6 +667,23 @@ pub fn check_frame(c: &FCase, st: &mut Stats) -> CheckResult {
         ensure!(out.from_samples.is_none(), "{}: from_samples returned Some on an iterator of only {} items", what, c.iter_len);
     }
     ensure!(veq_vec(&out.channels, &chans), "{}: channels() yielded {:?}, expected {:?}", what, out.channels, chans);
+    for (k, got, rest) in &out.channels_nth {
+        let exp = chans.get(*k).copied();
+        let same = match (got, exp) {
+            (Some(a), Some(b)) => veq(*a, b),
+            (None, None) => true,
+            _ => false,
+        };
+        ensure!(same, "{}: channels().nth({}) = {:?}, expected {:?}", what, k, got, exp);
+        let exp_rest: Vec<Val> = chans.iter().skip(k + 1).copied().collect();
+        ensure!(veq_vec(rest, &exp_rest), "{}: after channels().nth({}) the iterator yields {:?}, expected the channels after it {:?}", what, k, rest, exp_rest);
+    }
+    for (k, got) in &out.channels_skip {
+        let exp: Vec<Val> = chans.iter().skip(*k).copied().collect();
+        ensure!(veq_vec(got, &exp), "{}: channels().skip({}) yields {:?}, expected {:?}", what, k, got, exp);
+    }
+    let exp: Vec<Val> = chans.iter().step_by(2).copied().collect();
+    ensure!(veq_vec(&out.channels_step2, &exp), "{}: channels().step_by(2) yields {:?}, expected {:?}", what, out.channels_step2, exp);
     ensure!(veq_vec(&out.channels_ref, &chans), "{}: channels_ref() yielded {:?}", what, out.channels_ref);
     let rev: Vec<Val> = chans.iter().rev().copied().collect();
     ensure!(veq_vec(&out.channels_ref_rev, &rev), "{}: channels_ref().rev() yielded {:?}", what, out.channels_ref_rev);
